@@ -1133,7 +1133,7 @@ def run(ctx):
         ctx.case(case)
 
     # S4: low-threshold noise field: many marginal / singular fits (error masking under stress)
-    for t in range(2 if q else 4):
+    for t in range(2 if q else 8):
         spec_n = image_spec('noise', 3000 + 10 * seed + t, 4 if q else 8)
         scenario_blind(ctx, f'noise{t}', spec_n, dict(rms=1.0, bkg=0.0, innerclip=3.0, outerclip=2.5), rerun=(t == 0))
 
@@ -1149,8 +1149,17 @@ def run(ctx):
             compw, pathw = scenario_blind(ctx, 'wrap-' + tg, spec_w, dict(forced, doislandflux=True), rerun=False, roundtrip=True)
             if compw:
                 scenario_prior(ctx, 'wrap-' + tg, spec_w, pathw, compw, dict(forced, stage=2, doregroup=True), rerun=False)
-        for n in (20, 22, 41, 45):
+        for n in (20, 22, 41, 45, 61, 100):
             scenario_istart(ctx, n, stage=1 + n % 3, regroup=bool(n % 2))
+        for extra in range(1, 5):
+            spec_e = image_spec('grid', 6000 + 10 * seed + extra, 10)
+            oe = dict(forced, doislandflux=(extra % 2 == 0))
+            if extra == 3:
+                oe['max_summits'] = 2
+            ce, pe = scenario_blind(ctx, f'grid-x{extra}', spec_e, oe, rerun=(extra == 1))
+            if ce:
+                scenario_prior(ctx, f'grid-x{extra}', spec_e, pe, ce, dict(forced, stage=1 + extra % 3, doregroup=bool(extra % 2)),
+                               rerun=False, roundtrip=(extra == 4))
     else:
         spec_w = image_spec('grid', 5000 + seed, 3, ra0=0.02, dec0=10.0)
         scenario_blind(ctx, 'wrap-ra0', spec_w, dict(forced), rerun=False)
